@@ -181,6 +181,9 @@ func (fr *Frame) enterLoop(li *loopInfo, head *ssa.BasicBlock) {
 	for phi, hv := range li.phiHavoc {
 		if phi.Comment == "rangeindex" {
 			ex.assume(fmt.Sprintf("(>= %s (- 1))", hv.T), fr.curReach)
+		} else if isCountingPhi(li, phi) {
+			// a counter that starts at 0 and is incremented by 1 on every back edge is never negative
+			ex.assume(fmt.Sprintf("(>= %s 0)", hv.T), fr.curReach)
 		}
 	}
 	// 4. assume invariants (phis are now the havocked values)
@@ -449,4 +452,34 @@ func (fr *Frame) recv(x *ssa.UnOp) {
 	}
 	fr.vals[x] = v
 	ex.typeAssume(v, et, fr.curReach, false)
+}
+
+// isCountingPhi: a loop-head phi of integer type whose entry value is the constant 0 and whose value on every back edge
+// is itself plus the constant 1.
+func isCountingPhi(li *loopInfo, phi *ssa.Phi) bool {
+	if b, isB := phi.Type().Underlying().(*types.Basic); !isB || b.Info()&types.IsInteger == 0 {
+		return false
+	}
+	if len(phi.Edges) < 2 {
+		return false
+	}
+	for i, e := range phi.Edges {
+		pred := li.head.Preds[i]
+		if li.body[pred] {
+			bo, isBin := e.(*ssa.BinOp)
+			if !isBin || bo.Op != token.ADD || bo.X != phi {
+				return false
+			}
+			c, isC := bo.Y.(*ssa.Const)
+			if !isC || c.Value == nil || c.Value.ExactString() != "1" {
+				return false
+			}
+		} else {
+			c, isC := e.(*ssa.Const)
+			if !isC || c.Value == nil || c.Value.ExactString() != "0" {
+				return false
+			}
+		}
+	}
+	return true
 }
